@@ -5,6 +5,7 @@ package model
 import (
 	"bytes"
 	"fmt"
+	"hash/crc32"
 )
 
 type Msg struct {
@@ -15,7 +16,16 @@ type Msg struct {
 }
 
 func (m Msg) String() string {
-	return fmt.Sprintf("{%d t=%d k=%q v=%q}", m.Off, m.T, m.Key, m.Val)
+	return fmt.Sprintf("{%d t=%d k=%s v=%s}", m.Off, m.T, short(m.Key), short(m.Val))
+}
+
+// short quotes a byte string; long ones are abbreviated to length and checksum
+// (observations print every message they see: a 64 MiB value must not become a 256 MiB string).
+func short(b []byte) string {
+	if len(b) <= 256 {
+		return fmt.Sprintf("%q", b)
+	}
+	return fmt.Sprintf("<%d bytes crc %08x>", len(b), crc32.ChecksumIEEE(b))
 }
 
 // Same compares all fields; nil and empty byte slices are the same (the
